@@ -112,16 +112,34 @@ SLDerived(mode) == LET v == [n |-> 3, s |-> 8, t |-> 5, p |-> 0, a |-> 0]
                    IN [k \in 1..Len(ModeLetters[mode]) |-> v[ModeLetters[mode][k]]]
 
 \* ------------------------------------------------------------------ SDMX settings
-\* s = [kind, pows, nd, n1]; kind in {"none","SDMX","G","1","G1"}
+\* s = [kind, pows, nd, n1, full]; kind in {"none","SDMX","G","1","G1","Full"}
 \* SDMXSettings takes pows only, SDMXGSettings (pows, nd), SDMX1Settings (pows, n1), SDMXG1Settings all three
 EffNd(s) == IF s.kind \in {"G", "G1"} THEN s.nd ELSE 0
 EffN1(s) == IF s.kind \in {"1", "G1"} THEN s.n1 ELSE 0
-SDMXValid(s) == s.kind = "none" \/ (EffNd(s) <= Len(s.pows) /\ EffN1(s) <= Len(s.pows))
-SDMXNFeat(s) == IF s.kind = "none" THEN 0 ELSE Len(s.pows) + EffNd(s) + EffN1(s)
+\* kind "Full" (SDMXFullSettings): s.full is a sequence, sorted by ratio, of entries
+\*   [ratio10 (10 x the ratio), pows, cnt = <<n0, n0d, n1, n1d>>]
+\* feature order (iterate_l0_terms / iterate_l1_terms, SDMXFullPlan): ALL l=0 terms ratio by ratio (plain, then
+\* d/dR), THEN all l=1 terms ratio by ratio.  Every term of power n scales as lambda^(3+n).
+RECURSIVE FullFlat(_, _, _)
+FullFlat(es, k, l1) == IF k > Len(es) THEN <<>>
+                       ELSE (IF l1 THEN Take(es[k].pows, es[k].cnt[3]) \o Take(es[k].pows, es[k].cnt[4])
+                                   ELSE Take(es[k].pows, es[k].cnt[1]) \o Take(es[k].pows, es[k].cnt[2])) \o FullFlat(es, k + 1, l1)
+FullPows(s) == FullFlat(s.full, 1, FALSE) \o FullFlat(s.full, 1, TRUE)
+FullValid(s) == \A k \in 1..Len(s.full) : /\ s.full[k].ratio10 >= 10
+                                           /\ \A c \in 1..4 : s.full[k].cnt[c] <= Len(s.full[k].pows)
+\* the shipped UEG table knows ratios 1, 1.5, 2 and powers 0, 1, 2; anything else must be refused
+\* (NotImplementedError) by ueg_vector / get_reasonable_normalizer, never answered silently
+FullTabulated(s) == \A k \in 1..Len(s.full) : /\ s.full[k].ratio10 \in {10, 15, 20}
+                                               /\ \A c \in 1..4 : \A m \in 1..s.full[k].cnt[c] : s.full[k].pows[m] \in {0, 1, 2}
+SDMXValid(s) == s.kind = "none" \/ (IF s.kind = "Full" THEN FullValid(s) ELSE EffNd(s) <= Len(s.pows) /\ EffN1(s) <= Len(s.pows))
+SDMXNFeat(s) == IF s.kind = "none" THEN 0 ELSE IF s.kind = "Full" THEN Len(FullPows(s)) ELSE Len(s.pows) + EffNd(s) + EffN1(s)
 SDMXUsps(s) == IF s.kind = "none" THEN <<>>
+               ELSE IF s.kind = "Full" THEN [k \in 1..Len(FullPows(s)) |-> 3 + FullPows(s)[k]]
                ELSE LET base == [k \in 1..Len(s.pows) |-> 3 + s.pows[k]]
                     IN base \o Take(base, EffNd(s)) \o Take(base, EffN1(s))
+\* the recommended normaliser of feature k is a density power cancelling ITS OWN scaling power (feature order)
 SDMXNorms(s) == IF s.kind = "none" THEN <<>>
+                ELSE IF s.kind = "Full" /\ ~FullTabulated(s) THEN <<<<"raise">>>>
                 ELSE LET us == SDMXUsps(s) IN [k \in 1..Len(us) |-> <<"dens", -us[k]>>]
 
 \* ------------------------------------------------------------------ fractional Laplacian settings
@@ -147,7 +165,7 @@ Attr(c) ==
   IF ~Valid(c) THEN [valid |-> FALSE]
   ELSE LET nn == IF HasNLDF(c) THEN NLDFNorms(c.nldf) ELSE <<>>
        IN [valid |-> TRUE, nfeat |-> NFeat(c), loc |-> FeatLoc(c), usps |-> FeatUsps(c),
-           nldf_norms |-> nn, norm_raises |-> Raises(nn), sdmx_norms |-> SDMXNorms(c.sdmx),
+           nldf_norms |-> nn, norm_raises |-> (Raises(nn) \/ Raises(SDMXNorms(c.sdmx))), sdmx_norms |-> SDMXNorms(c.sdmx),
            nldf_norm_usps |-> [k \in 1..Len(nn) |-> NormUsp(nn[k])]]
 
 
